@@ -49,9 +49,8 @@ def run(ctx):
             detail = "end of the appended range is this read's result: %s; the slice is taken from the buffer handed to read(): %s" % (n_ok, same_buf)
         ctx.ob("R02.1", "append=buf[..n]", ok and M.noref(a[0]) == ("param", 2, dr.local_name(2)), dr.loc(eb), "the bytes appended to dest must be buf[..n] of the read just performed: " + detail)
         is_n = lambda x: M.noref(M.strip(x)) == M.noref(rcall)
-        nz = bool_edges(dr, Td, lambda c: c[0] == "bin" and c[1] == "Ne" and const_of(c[3]) == 0 and is_n(c[2]), True) + \
-            bool_edges(dr, Td, lambda c: c[0] == "bin" and c[1] == "Eq" and const_of(c[3]) == 0 and is_n(c[2]), False) + \
-            bool_edges(dr, Td, lambda c: c[0] == "bin" and c[1] == "Gt" and const_of(c[3]) == 0 and is_n(c[2]), True)
+        # (`n != 0`, `!(n == 0)`, `n > 0`, or the other arm of `match n { 0 => .. }`)
+        nz = int_eq_edges_ne(dr, Td, is_n, 0) + int_gt_edges(dr, Td, is_n, 0)
         ctx.ob("R02.1", "append-on-n!=0", dominated_by_edges(dr, eb, nz), dr.loc(eb), "the append happens on the n != 0 edge of that read")
         # every path from a successful non-empty read to return passes the append
         if nz:
@@ -181,11 +180,9 @@ def run(ctx):
     selfp = E.selfp
     for bb, t in E.writes:
         ch = M.noref(T.operand(t["args"][1]))
-        ok = ch[0] == "call" and "index" in ch[1].lower()
-        if ok:
-            base, rng = ch[2][0], ch[2][1]
-            ok = rng[0] == "agg" and rng[1][1] == "std::ops::RangeTo" and base[0] == "call" and "index" in base[1].lower() and M.noref(base[2][0]) == ("field", selfp, "input_data") \
-                and base[2][1][0] == "agg" and base[2][1][1][1] == "std::ops::RangeFrom" and M.noref(base[2][1][2][0]) == ("field", selfp, "input_pos")
+        base, _bound = chunk_of(ch)
+        ok = base is not None and base[0] == "call" and "index" in base[1].lower() and M.noref(base[2][0]) == ("field", selfp, "input_data") \
+            and M.noref(base[2][1])[0] == "agg" and M.noref(base[2][1])[1][1] == "std::ops::RangeFrom" and M.noref(M.noref(base[2][1])[2][0]) == ("field", selfp, "input_pos")
         ctx.ob("R02.3", "chunk=input[input_pos..][..k]", ok, ri.loc(bb), "the chunk written must start at the cursor: %s" % M.term_str(ch)[:160])
         wcall = ("call", M.callee_str(t["f"]), tuple(T.operand(a) for a in t["args"]), bb)
         st = [(b, si, s) for (b, si, s) in stores_to_field(ri, "input_pos", "communicate::raw::RawCommunicator")]
@@ -202,8 +199,8 @@ def run(ctx):
         okp = bool(ok_e_) and bool(st_b) and all(dominated_by_blocks(ri, r_, st_b, start=ok_e_[0][1]) for r_ in ri.return_blocks() if r_ in ri.reachable(ok_e_[0][1]))
         ctx.ob("R02.3", "cursor-persisted-before-any-return", okp, ri.loc(bb), "what write() accepted is recorded in self.input_pos before any return (also the error returns), so a resumed read never sends a byte twice")
     # ---- R02.4 stdin closed when and only when done (shared with R01.4) ---------------------------------
-    takes = [(bb, t) for bb, t in ri.calls() if M.callee_str(t["f"]) == "std::option::Option::<T>::take" and M.noref(T.operand(t["args"][0])) == ("field", selfp, "stdin")]
-    other_close = [(b, si) for (b, si, s) in stores_to_field(ri, "stdin", "communicate::raw::RawCommunicator")]
+    rel_, other_close = stdin_releases(ri, T, selfp)
+    takes = [(bb, t) for bb, kind, t in rel_]
     def done_atom(c):
         """+1: the input is exhausted (cursor == / >= length, or the rest of the input is empty); -1: its negation"""
         pos = ("field", selfp, "input_pos")
